@@ -440,11 +440,16 @@ func (e *Env) applyBucketOp(op Op) *Violation {
 			return v
 		}
 	case OpStatsKeyN:
-		if isRoot || writable || len(mb.Sub) > 0 {
-			return nil
+		if isRoot || writable {
+			return nil // Stats reads committed pages only: exact in read transactions
 		}
-		if got := h.b.Stats().KeyN; got != len(mb.Keys) {
-			return Violf("Stats().KeyN(%s) = %d, model %d", op, got, len(mb.Keys))
+		// KeyN counts every leaf element of the bucket and of all buckets nested in it (keys and bucket names)
+		st := h.b.Stats()
+		if want := modelElements(mb); st.KeyN != want {
+			return Violf("Stats().KeyN(%s) = %d, model has %d keys and bucket names in the subtree", op, st.KeyN, want)
+		}
+		if want := modelBuckets(mb); st.BucketN != want {
+			return Violf("Stats().BucketN(%s) = %d, model has %d buckets in the subtree", op, st.BucketN, want)
 		}
 	case OpBucketProbe:
 		got := h.bucket(key)
@@ -646,3 +651,19 @@ func keyOf(c CurCall) string {
 type countingWriter struct{ n int64 }
 
 func (c *countingWriter) Write(p []byte) (int, error) { c.n += int64(len(p)); return len(p), nil }
+
+func modelElements(m *model.Bucket) int {
+	n := len(m.Keys) + len(m.Sub)
+	for _, s := range m.Sub {
+		n += modelElements(s)
+	}
+	return n
+}
+
+func modelBuckets(m *model.Bucket) int {
+	n := 1
+	for _, s := range m.Sub {
+		n += modelBuckets(s)
+	}
+	return n
+}
